@@ -92,6 +92,38 @@ def _real_parse(host, simple, cur, source):
     return ('ok', sdv, len(rest.split()), rest)
 
 
+# --------------------------------------------------------------------------- the whole-text route: `def TYPE NAME = EXPR`
+
+DEF_TYPE = {
+    'integer': 'integer-matcher',
+    'line': 'line-matcher',
+    'string': 'text-matcher',
+    'file': 'file-matcher',
+    'files': 'files-matcher',
+    'transformer': 'text-transformer',
+}
+
+_FS_LOCATION = []
+
+
+def real_def_parse(host: str, source: str):
+    """Runs the REAL parser of the symbol-definition instruction on `TYPE M = <source>` (the text that follows the
+    instruction name `def`): the public route on which the WHOLE rest of the line must be an expression of the type.
+    -> ('ok', sdv of the defined value, remaining source) | ('err', message)  iff the instruction's syntax error"""
+    from exactly_lib.impls.instructions.multi_phase.define_symbol import parser as def_parser
+    from exactly_lib.section_document.parse_source import ParseSource
+    if not _FS_LOCATION:
+        import pathlib
+        from exactly_lib.section_document.source_location import FileSystemLocationInfo, FileLocationInfo
+        _FS_LOCATION.append(FileSystemLocationInfo(FileLocationInfo(pathlib.Path('/'))))
+    ps = ParseSource('%s M = %s' % (DEF_TYPE[host], source))
+    try:
+        embryo = def_parser.EmbryoParser().parse(_FS_LOCATION[0], ps)
+    except SingleInstructionInvalidArgumentException as e:
+        return ('err', str(e.error_message))
+    return ('ok', embryo.symbol.symbol_container.sdv, ps.remaining_source)
+
+
 # --------------------------------------------------------------------------- concrete stage
 
 def concrete():
